@@ -286,17 +286,16 @@ Definition cones_valid (a : vecG f32) : Prop :=
 Lemma zero64 : cl (f64_of_bits 0) 0 0.
 Proof. split; [vm_compute; reflexivity|]. replace (B2R (f64_of_bits 0)) with 0 by (vm_compute; reflexivity). rewrite Rminus_diag_eq by reflexivity. rewrite Rabs_R0. lra. Qed.
 
-Theorem adapt_white_close (A B : vecG f32) :
+(* the matrix AdaptBetweenXYZWhitePoints builds, entrywise against the real Bradford adaptation matrix *)
+Theorem adapt_matrix_close (A B : vecG f32) :
   white_valid A -> white_valid B -> cones_valid A ->
-  let r := applyF (adaptF A B) A in
-  finV32 r /\
-  Rabs (B2R (v0 r) - B2R (v0 B)) <= / 1000000 /\ Rabs (B2R (v1 r) - B2R (v1 B)) <= / 1000000 /\ Rabs (B2R (v2 r) - B2R (v2 B)) <= / 1000000.
+  mcl (adaptF A B) (adapt (realV A) (realV B)) (18 / 1000000000) /\
+  mbd (adapt (realV A) (realV B)) (3 * (99 / 100 * (401 / 10) * (172 / 100))).
 Proof.
-  intros [(FA0 & FA1 & FA2) BA] [(FB0 & FB1 & FB2) BB] (CA0 & CA1 & CA2). cbv zeta.
+  intros [(FA0 & FA1 & FA2) BA] [(FB0 & FB1 & FB2) BB] (CA0 & CA1 & CA2).
   set (a := realV A) in *. set (b := realV B) in *.
   pose proof (toV_close A FA0 FA1 FA2) as TA. pose proof (toV_close B FB0 FB1 FB2) as TB. fold (realV A) in TA. fold (realV B) in TB. fold a in TA. fold b in TB.
   pose proof (cone_bd a BA) as RA. pose proof (cone_bd b BB) as RB.
-  (* cone responses *)
   assert (C1 : (172 / 100 + / 1000000000000000) * (4 + 0) <= 2700) by lra.
   pose proof (mulV_close _ _ _ _ _ _ _ _ BFf_close TA BF_bd BA C1) as SA.
   pose proof (mulV_close _ _ _ _ _ _ _ _ BFf_close TB BF_bd BB C1) as SB.
@@ -305,7 +304,6 @@ Proof.
   set (sf := mulVF bradford_forward (toV A)) in *. set (df := mulVF bradford_forward (toV B)) in *.
   set (s := mulV BF a) in *. set (d := mulV BF b) in *.
   destruct SA as (SA0 & SA1 & SA2). destruct SB as (SB0 & SB1 & SB2). destruct RB as (RB0 & RB1 & RB2).
-  (* the diagonal *)
   destruct (div_close _ _ _ _ es SB0 SA0 RB0 CA0 ltac:(lra)) as [D0 Q0].
   destruct (div_close _ _ _ _ es SB1 SA1 RB1 CA1 ltac:(lra)) as [D1 Q1].
   destruct (div_close _ _ _ _ es SB2 SA2 RB2 CA2 ltac:(lra)) as [D2 Q2].
@@ -318,44 +316,79 @@ Proof.
   assert (MD : mcl mf mr ed) by (unfold mf, mr, diag, mcl, vcl; cbn [v0 v1 v2 c0 c1 c2]; repeat split; first [apply D0 | apply D1 | apply D2 | apply Z]).
   assert (MB : mbd mr (401 / 10)).
   { unfold mr, diag, mbd, vbd. cbn [v0 v1 v2 c0 c1 c2]. rewrite Rabs_R0. repeat split; first [exact Q0 | exact Q1 | exact Q2 | lra]. }
-  (* bradfordInverse * diag *)
   assert (C2 : (99 / 100 + / 100000000000000) * (401 / 10 + ed) <= 2700) by lra.
   pose proof (mulM_close _ _ _ _ _ _ _ _ BIf_close MD BI_bd MB C2) as P1.
   set (e1 := derr (/ 100000000000000) ed (99 / 100) (401 / 10)) in *.
   assert (E1 : 0 <= e1 <= 34 / 10000000000) by (unfold e1, derr, eop; lra).
   pose proof (mulM_diag_bd (inverse BF) _ _ _ (99 / 100) (401 / 10) BI_bd Q0 Q1 Q2) as P1B.
   fold mr in P1B.
-  (* ... * bradfordForward *)
   assert (C3 : (99 / 100 * (401 / 10) + e1) * (172 / 100 + / 1000000000000000) <= 2700) by lra.
   pose proof (mulM_close _ _ _ _ _ _ _ _ P1 BFf_close P1B BF_bd C3) as P2.
   set (e2 := derr e1 (/ 1000000000000000) (99 / 100 * (401 / 10)) (172 / 100)) in *.
   assert (E2 : 0 <= e2 <= 18 / 1000000000) by (unfold e2, derr, eop; lra).
   pose proof (mulM_bd _ _ _ _ P1B BF_bd) as P2B.
-  (* the real product is the adaptation matrix, which maps a onto b *)
-  assert (AW : mulV (mulM (mulM (inverse BF) mr) BF) a = b).
-  { apply (adapt_white a b). unfold cone_ok. fold s.
-    repeat split; intros C; [rewrite C, Rabs_R0 in CA0 | rewrite C, Rabs_R0 in CA1 | rewrite C, Rabs_R0 in CA2]; lra. }
-  (* Apply *)
-  assert (C4 : (3 * (99 / 100 * (401 / 10) * (172 / 100)) + e2) * (4 + 0) <= 2700) by lra.
-  pose proof (mulV_close _ _ _ _ _ _ _ _ P2 TA P2B BA C4) as AP. rewrite AW in AP.
-  set (e3 := derr e2 0 (3 * (99 / 100 * (401 / 10) * (172 / 100))) 4) in *.
+  split.
+  - unfold adaptF, adapt. cbv zeta. fold sf df z mf s d mr.
+    destruct P2 as ((X00 & X01 & X02) & (X10 & X11 & X12) & (X20 & X21 & X22)).
+    split; [|split]; (split; [|split]);
+      first [apply (cl_weaken _ _ _ _ X00) | apply (cl_weaken _ _ _ _ X01) | apply (cl_weaken _ _ _ _ X02)
+            | apply (cl_weaken _ _ _ _ X10) | apply (cl_weaken _ _ _ _ X11) | apply (cl_weaken _ _ _ _ X12)
+            | apply (cl_weaken _ _ _ _ X20) | apply (cl_weaken _ _ _ _ X21) | apply (cl_weaken _ _ _ _ X22)]; lra.
+  - unfold adapt. cbv zeta. fold s d mr. replace (3 * (99 / 100 * (401 / 10) * (172 / 100))) with (3 * (99 / 100 * (401 / 10) * (172 / 100))) by ring. exact P2B.
+Qed.
+
+(* ChromaticAdaptation.Apply on any colour of magnitude at most 4: the float result against the real matrix *)
+Theorem apply_close (A B c : vecG f32) :
+  white_valid A -> white_valid B -> cones_valid A -> white_valid c ->
+  let r := applyF (adaptF A B) c in let x := mulV (adapt (realV A) (realV B)) (realV c) in
+  finV32 r /\
+  Rabs (B2R (v0 r) - v0 x) <= 6 / 100000000 * Rabs (v0 x) + 3 / 10000000 /\
+  Rabs (B2R (v1 r) - v1 x) <= 6 / 100000000 * Rabs (v1 x) + 3 / 10000000 /\
+  Rabs (B2R (v2 r) - v2 x) <= 6 / 100000000 * Rabs (v2 x) + 3 / 10000000.
+Proof.
+  intros VA VB CA [(Fc0 & Fc1 & Fc2) Bc]. cbv zeta.
+  destruct (adapt_matrix_close A B VA VB CA) as [MC MBd].
+  pose proof (toV_close c Fc0 Fc1 Fc2) as Tc. fold (realV c) in Tc.
+  assert (C4 : (3 * (99 / 100 * (401 / 10) * (172 / 100)) + 18 / 1000000000) * (4 + 0) <= 2700) by lra.
+  pose proof (mulV_close _ _ _ _ _ _ _ _ MC Tc MBd Bc C4) as AP.
+  set (e3 := derr (18 / 1000000000) 0 (3 * (99 / 100 * (401 / 10) * (172 / 100))) 4) in *.
   assert (E3 : 0 <= e3 <= 22 / 100000000) by (unfold e3, derr, eop; lra).
-  unfold applyF, adaptF. cbv zeta. fold sf df z mf.
-  set (rf := mulVF (mulMF (mulMF bradford_inverse mf) bradford_forward) (toV A)) in *.
-  destruct AP as ((G0 & H0) & (G1 & H1) & (G2 & H2)).
-  destruct BB as (BB0 & BB1 & BB2). unfold b, realV in H0, H1, H2, BB0, BB1, BB2. cbn [v0 v1 v2] in H0, H1, H2, BB0, BB1, BB2.
-  apply Rabs_le_inv in H0. apply Rabs_le_inv in H1. apply Rabs_le_inv in H2.
-  apply Rabs_le_inv in BB0. apply Rabs_le_inv in BB1. apply Rabs_le_inv in BB2.
-  destruct (f32_of_f64_ok (v0 rf) G0 ltac:(apply Rabs_le; lra)) as [K0 L0].
-  destruct (f32_of_f64_ok (v1 rf) G1 ltac:(apply Rabs_le; lra)) as [K1 L1].
-  destruct (f32_of_f64_ok (v2 rf) G2 ltac:(apply Rabs_le; lra)) as [K2 L2].
-  assert (M0 : Rabs (B2R (v0 rf)) <= 5) by (apply Rabs_le; lra).
-  assert (M1 : Rabs (B2R (v1 rf)) <= 5) by (apply Rabs_le; lra).
-  assert (M2 : Rabs (B2R (v2 rf)) <= 5) by (apply Rabs_le; lra).
-  unfold fromV, finV32. cbn [v0 v1 v2].
-  split; [repeat split; assumption|].
-  apply Rabs_le_inv in L0. apply Rabs_le_inv in L1. apply Rabs_le_inv in L2.
-  repeat split; apply Rabs_le; lra.
+  set (x := mulV (adapt (realV A) (realV B)) (realV c)) in *.
+  assert (XB : vbd x 2500).
+  { destruct MBd as ((M00 & M01 & M02) & (M10 & M11 & M12) & (M20 & M21 & M22)). destruct Bc as (c0b & c1b & c2b).
+    unfold x, vbd. red_all.
+    repeat split; (replace 2500 with (3 * (99 / 100 * (401 / 10) * (172 / 100)) * 4 + 3 * (99 / 100 * (401 / 10) * (172 / 100)) * 4 + (2500 - 2 * (3 * (99 / 100 * (401 / 10) * (172 / 100)) * 4))) by ring;
+                   apply abs3; [apply abs_prod_le'; assumption | apply abs_prod_le'; assumption |
+                                eapply Rle_trans; [apply abs_prod_le'; eassumption|lra]]). }
+  unfold applyF. set (rf := mulVF (adaptF A B) (toV c)) in *.
+  destruct AP as ((G0 & H0) & (G1 & H1) & (G2 & H2)). destruct XB as (X0 & X1 & X2).
+  assert (W : forall (g : f64) (y : R), is_finite g = true -> Rabs (B2R g - y) <= e3 -> Rabs y <= 2500 ->
+              is_finite (f32_of_f64 g) = true /\ Rabs (B2R (f32_of_f64 g) - y) <= 6 / 100000000 * Rabs y + 3 / 10000000).
+  { intros g y Fg Hg Hy.
+    assert (Gb : Rabs (B2R g) <= Rabs y + e3).
+    { replace (B2R g) with (y + (B2R g - y)) by ring. eapply Rle_trans; [apply Rabs_triang|]. lra. }
+    destruct (f32_of_f64_ok g Fg ltac:(lra)) as [K L]. split; [exact K|].
+    replace (B2R (f32_of_f64 g) - y) with ((B2R (f32_of_f64 g) - B2R g) + (B2R g - y)) by ring.
+    eapply Rle_trans; [apply Rabs_triang|]. pose proof (Rabs_pos y). lra. }
+  destruct (W _ _ G0 H0 X0) as [K0 L0]. destruct (W _ _ G1 H1 X1) as [K1 L1]. destruct (W _ _ G2 H2 X2) as [K2 L2].
+  unfold fromV, finV32. cbn [v0 v1 v2]. repeat split; assumption.
+Qed.
+
+(* the white-point clause: A is mapped onto B within 1e-6 *)
+Theorem adapt_white_close (A B : vecG f32) :
+  white_valid A -> white_valid B -> cones_valid A ->
+  let r := applyF (adaptF A B) A in
+  finV32 r /\
+  Rabs (B2R (v0 r) - B2R (v0 B)) <= / 1000000 /\ Rabs (B2R (v1 r) - B2R (v1 B)) <= / 1000000 /\ Rabs (B2R (v2 r) - B2R (v2 B)) <= / 1000000.
+Proof.
+  intros VA VB CA. cbv zeta.
+  pose proof (apply_close A B A VA VB CA VA) as H. cbv zeta in H.
+  assert (AW : mulV (adapt (realV A) (realV B)) (realV A) = realV B).
+  { apply adapt_white. destruct CA as (C0 & C1 & C2). unfold cone_ok.
+    repeat split; intros C; [rewrite C, Rabs_R0 in C0 | rewrite C, Rabs_R0 in C1 | rewrite C, Rabs_R0 in C2]; lra. }
+  rewrite AW in H. destruct H as (F & H0 & H1 & H2). split; [exact F|].
+  destruct VB as [_ (B0 & B1 & B2)]. unfold realV in *. cbn [v0 v1 v2] in *.
+  repeat split; [eapply Rle_trans; [exact H0|] | eapply Rle_trans; [exact H1|] | eapply Rle_trans; [exact H2|]]; lra.
 Qed.
 
 (* the premises hold for the library's own D50 and D65 (ciexyz.D50, ciexyz.D65 as float32) *)
